@@ -340,7 +340,22 @@ def _apply(L, opname, fn, hist, agg, oracle):
         if len(agg["fails"]) < 40:
             agg["fails"].append({"clause": "input-modified", "op": opname, "history": list(hist),
                                  "detail": "history %s: %s: %s" % (" ".join(hist), opname, msg)})
+    # results handed out earlier belong to the caller: no later call may rewrite them
+    for (h0, op0, arr, snap) in getattr(L, "handed_out", []):
+        if arr.tobytes() != snap:
+            agg["nfails"] += 1
+            if len(agg["fails"]) < 40:
+                agg["fails"].append({"clause": "returned-array-overwritten", "op": op0, "history": list(hist),
+                                     "detail": "history %s: the array returned by %s (step %d) was %s and reads %s after %s"
+                                               % (" ".join(hist), op0, h0, np.frombuffer(snap, dtype=arr.dtype)[:4], arr.ravel()[:4], opname)})
+            L.handed_out = [t for t in L.handed_out if t[2] is not arr]
     if key is not None:
+        if not hasattr(L, "handed_out"):
+            L.handed_out = []
+        for a in (value if isinstance(value, (tuple, list)) else [value]):
+            if isinstance(a, np.ndarray) and a.size:
+                L.handed_out.append((len(hist), opname, a, a.tobytes()))
+        L.handed_out = L.handed_out[-12:]
         agg["evals"] += 1
         got = _ev(value)
         if oracle is not None:
